@@ -112,8 +112,8 @@ def panic_sites(facts):
                     continue
                 item = t["callee"].get("item") or p.split("::")[-1]
                 if item in PANIC_METHODS and not any(p.startswith(o) for o in NONPANIC_OWNERS):
-                    if item in ("insert", "remove") and "HashMap" in p:
-                        continue
+                    if item in ("insert", "remove") and ("HashMap" in p or "hash_map::" in p or "BTreeMap" in p or "btree_map::" in p or "btree::map::" in p or "HashSet" in p or "BTreeSet" in p):
+                        continue  # keyed insertion / removal of the std maps and their entry objects takes no index: no panic
                     if item in ("borrow", "borrow_mut") and "RefCell" not in p:
                         continue
                     if item == "swap" and p in ("std::mem::swap", "core::mem::swap"):
